@@ -120,6 +120,29 @@ CHECKS["C20"] = dict(
     design_ref="DESIGN.md section 5, C20",
 )
 
+FULL = "Trusted: the simulated gtp5g kernel (harness/internal/verif/simk) standing for the kernel module; events (datagrams, kernel notifications, ticks) reach the goroutines one at a time with quiescence of the PFCP loop and the periodic server read from goroutine dumps; the reference G-PDU decoder of C14."
+CHECKS["C10"] = dict(
+    engine=E1,
+    technique="explicit-state BFS over the full stack (real PfcpServer + real gtp5g driver + real buffnetlink/perio servers over a simulated kernel): ticks, Query/Remove/Update URR, deletion, re-establishment; in every reached state an exhaustive sweep of kernel REPORT batch shapes (1..3 reports over live/unknown/ended sessions x known/unknown URRs in every arrangement, 17 single-cause triggers, boundary counters)",
+    text="Model checking of the implementation: every usage report the simulated kernel hands out for a live session and known URR must arrive exactly once at the owning peer, in the right carrier message with the peer's SEID, the trigger of the same name, times and counters as measured and the measurement IEs selected by method/MNOP; reports for unknown sessions or URRs produce nothing and do not disturb the rest of the batch.",
+    note=FULL,
+    design_ref="DESIGN.md section 5, C10",
+)
+CHECKS["C13"] = dict(
+    engine=E1,
+    technique="explicit-state BFS over the full stack: BUFFER notifications (live / unknown / ended sessions, with and without NOCP, bursts across the 512 capacity), FAR apply-action transitions among BUFF/FORW/DROP/NOCP combinations, PDR removal, deletion and SEID re-use, against reference bounded FIFOs with globally unique payloads",
+    text="Model checking of the implementation: after every transition the real per-session queues must equal the reference FIFOs (capacity 512, newest dropped), a BUFF->FORW transition must emit exactly the queued payloads, each once, in order per PDR, as well-formed G-PDUs with the FAR's TEID and the session's QFI at the simulated gNB, BUFF->DROP and everything else emits nothing, and a downlink data report goes to the owner exactly when NOCP was set.",
+    note=FULL,
+    design_ref="DESIGN.md section 5, C13",
+)
+CHECKS["C15"] = dict(
+    engine=E1,
+    technique="explicit-state search over the complete registration state space of the real perio.Server goroutine (2 sessions x 2 URRs x 2 periods; Add/Del/Tick incl. stale ticks/Close) plus exhaustive batch-boundary enumeration of queryMultiURR over the simulated kernel",
+    text="Model checking of the implementation: on every tick the argument of the query callback must equal the reference set of that period exactly, every returned report must be notified once, flagged PERIO, under its own SEID, and the number of live ticker goroutines must equal the number of non-empty groups (0 and no server goroutine after Close); batching: every GET_MULTI_REPORTS request carries at most the limit, their disjoint union is the input, the result regroups each report under its SEID once.",
+    note="Trusted: ticks are injected events (real tickers run with hour-long periods); goroutines counted from runtime.Stack dumps; the simulated kernel. The schedule part (E3) is reported separately when built.",
+    design_ref="DESIGN.md section 5, C15",
+)
+
 NOT_YET = "check not built yet (work in progress in this round; design in DESIGN.md section 5)"
 
 def main():
